@@ -92,6 +92,43 @@ struct access
         return "end=" + (end == list.end() ? std::string("-") : std::to_string(*end)) + " list=" + join(l) +
                " size=" + std::to_string(c.m_used_size) + " ttl=" + join(tq) + " used=" + join(used);
     }
+#elif defined(HK_fifo)
+    template<class C> static std::string dump(C& c)
+    {
+        std::vector<std::string> l;
+        for (auto& e : c.m_fifo_list)
+        {
+            if (e.m_keyed_position.has_value())
+                l.push_back(std::to_string(e.m_keyed_position.value()->first) + ":" + std::to_string(id(e.m_value)));
+            else
+                l.push_back("-");
+        }
+        return "list=" + join(l) + " size=" + std::to_string(c.m_used_size);
+    }
+#elif defined(HK_lfu) || defined(HK_lfuda)
+    template<class C> static std::string dump(C& c)
+    {
+#if defined(HK_lfu)
+        auto& list = c.m_open_list;
+#else
+        auto& list = c.m_dynamic_age_list;
+#endif
+        std::vector<std::string> l, lq;
+        size_t n = 0;
+        for (auto it = list.begin(); it != c.m_open_list_end; ++it, ++n)
+        {
+            auto& e = *it;
+#if defined(HK_lfuda)
+            std::string stamp = std::to_string(e.m_dynamic_age.time_since_epoch().count());
+#else
+            std::string stamp = "0";
+#endif
+            l.push_back(std::to_string(e.m_keyed_position->first) + ":" + std::to_string(id(e.m_value)) + ":" +
+                        std::to_string(e.m_lfu_position->first) + ":" + stamp);
+        }
+        for (auto& [cnt, it] : c.m_lfu_list) lq.push_back(std::to_string(cnt) + ":" + std::to_string(it->m_keyed_position->first));
+        return "end=" + std::to_string(n) + " list=" + join(l) + " lfu=" + join(lq) + " size=" + std::to_string(c.m_used_size);
+    }
 #else
     template<class C> static std::string dump(C&) { return "-"; }
 #endif
